@@ -315,7 +315,68 @@ def case_reconnect_host(p):
     return out
 
 
-CASES = {"lowlevel": case_lowlevel, "pairing_api": case_pairing_api, "reconnect_host": case_reconnect_host}
+def case_discovery_api(p):
+    """Unpaired operations through IpDiscovery (identify, pair-setup M1/M3/M5) on the plain connection used before pairing; afterwards the new
+    pairing's first verified requests.  API operations never have an empty body on this tree, so the strict form is demanded here."""
+    from vt import vloop
+    from vt.env import pairdrv
+    from vt.env.iprig import StubController
+    from vt.env.reconn import mk_description
+
+    host = p["host"]
+    loop = vloop.VirtualLoop().install()
+    net = vloop.SimNet(loop)
+    out = []
+    n = 0
+    with vloop.patched_network(net), pairdrv.pinned_keys(f"c09disc|{p.get('seed', 0)}"), pairdrv.pinned_srp(int.from_bytes(b"c09-srp-a-secret", "big")):
+        try:
+            from aiohomekit.controller.ip.discovery import IpDiscovery
+
+            acc = ipacc.Accessory(p.get("seed", 0))
+            acc.handler = lambda sess, method, target, headers, body: (204, b"", None) if target == "/identify" else std_handler()(sess, method, target, headers, body)
+            net.auto = lambda att: ("ok", att["hosts"][0])
+            sessions = []
+            orig = net.accept
+
+            def accept(att, h=None):
+                c = orig(att, h)
+                sess = acc.new_session()
+                sessions.append((c, sess))
+                c.session = sess
+                c.handler = lambda cc, data: [loop.call_soon(cc.send, o) for o in sess.feed(data)]
+                return c
+
+            net.accept = accept
+            ctl = StubController()
+            disc = IpDiscovery(ctl, mk_description([host]))
+            loop.run_coro(disc.async_identify())
+            finish = loop.run_coro(disc.async_start_pairing("alias"))
+            pairing = loop.run_coro(finish("111-22-333"))
+            pairing.description = mk_description([host])
+            loop.run_coro(pairing.list_accessories_and_characteristics())
+            loop.run_coro(pairing.close())
+            for c, sess in sessions:
+                calls = list(c.transport.calls) if c.transport else []
+                if len(calls) != len(sess.requests):
+                    out.append(("request-not-handed-to-transport-in-one-call", {"api": "discovery", "host": host, "calls": len(calls), "requests": len(sess.requests)}))
+                for secure, method, target, headers, body, raw in sess.requests:
+                    n += 1
+                    ctype = "application/pairing+tlv8" if target.startswith("/pair-") else "application/hap+json"
+                    det = {"api": "discovery:" + target, "host": host}
+                    out += judge_raw(raw, method, target, c.host, body, ctype, det)
+                    if not body and method in ("PUT", "POST") and raw != canonical(method, target, c.host, None, None):
+                        out.append(("api-request-without-body-carries-content-headers", dict(det, got=raw[:200])))
+            if not any(r[2] == "/identify" for _, s_ in sessions for r in s_.requests) or not any(r[2] == "/pair-setup" for _, s_ in sessions for r in s_.requests):
+                out.append(("harness:discovery-requests-missing", {}))
+        except Exception as e:  # noqa: BLE001
+            out.append((f"discovery-api-raises:{type(e).__name__}", {"host": host, "err": str(e)[:200]}))
+        finally:
+            loop.shutdown()
+    p["_n"] = max(1, n)
+    return out
+
+
+CASES = {"lowlevel": case_lowlevel, "pairing_api": case_pairing_api, "reconnect_host": case_reconnect_host, "discovery_api": case_discovery_api}
 
 
 def _work(item, seed, tier):
@@ -362,12 +423,13 @@ def run(ctx):
         for i in range(0, len(calls), 25):
             work.append(("lowlevel", {"host": host, "calls": calls[i : i + 25]}))
         work.append(("pairing_api", {"host": host, "max_ids": 3 if quick else 5}))
+        work.append(("discovery_api", {"host": host}))
     for hosts in (["fd00::1:2", "192.168.1.5"], ["192.168.1.5", "fe80::1%eth0"], ["192.168.1.5", "192.168.1.6"]):
         for order in ([hosts[0], hosts[1]], [hosts[1], hosts[0], hosts[1]]):
             work.append(("reconnect_host", {"host": hosts[0], "hosts": hosts, "order": order}))
     ctx.pmap(_work, work)
     ctx.exhaustive = True
     ctx.bounds.update(hosts=hosts, targets=targets, json_objects=len(objs), id_subsets_up_to=3 if quick else 5)
-    for s in ("lowlevel", "pairing_api", "reconnect_host", "host:v4", "host:v6", "host:scoped"):
+    for s in ("lowlevel", "pairing_api", "reconnect_host", "discovery_api", "host:v4", "host:v6", "host:scoped"):
         ctx.require(ctx.acc.symbols[s] > 0, f"{s} never ran")
     ctx.require(ctx.acc.extra["requests_checked"] > 200, "too few requests checked")
